@@ -160,6 +160,16 @@ type gen struct {
 	rng *rand.Rand
 	id  int
 	odd bool // also inputs outside the protocol's domain
+	big int  // bulky behaviours (megabytes of trace each) generated so far: a run generates a handful of them, however long it is
+}
+
+// bulky: may another bulky behaviour be generated (probability p, at most eight per run)?
+func (g *gen) bulky(p float64) bool {
+	if g.big >= 8 || !g.chance(p) {
+		return false
+	}
+	g.big++
+	return true
 }
 
 func (g *gen) pick(xs ...string) string { return xs[g.rng.Intn(len(xs))] }
@@ -506,7 +516,7 @@ func (g *gen) customCache(cfg M, steps []any, p float64) {
 // follows every message.
 func (g *gen) behC07() M {
 	steps := []any{g.startupX("u")}
-	if g.chance(0.02) {
+	if g.bulky(0.02) {
 		// a long-lived connection: well over a hundred statements and portals defined and closed again - a closed
 		// name stays closed, the hundred-and-thirtieth like the first
 		rounds := 130 + g.rng.Intn(30)
@@ -631,7 +641,7 @@ func (g *gen) behC08() M {
 			np = 50 + g.rng.Intn(250)
 		}
 		typed := g.chance(0.5)
-		if r == 0 && g.chance(0.012) {
+		if r == 0 && g.bulky(0.012) {
 			// as many parameters, each with a format code of its own, as the 16-bit counts of Bind allow
 			np = []int{32767, 32768, 40000, 65535}[g.rng.Intn(4)]
 			typed = false
@@ -1273,7 +1283,7 @@ func (g *gen) behC20() M {
 			toks = append(toks, M{"k": "d", "n": idx})
 		}
 	}
-	if g.chance(0.012) {
+	if g.bulky(0.012) {
 		// more occurrences of markers than the protocol has parameters: the limit is on the highest index, not on
 		// how often indexes are written - the highest one may well come last
 		k := []int{65535, 65536, 70000}[g.rng.Intn(3)]
